@@ -32,13 +32,15 @@ template <bool LOCK> struct SbHist {
             }
             else if (c == 'S' || c == 'T') {
                 Bytes d = bx(f[2]); std::string s = str_of(d);
-                hw::begin(0); if (c == 'S') *v[x] = SB(std::move(s)); else v[x]->assign(std::move(s)); dirty += hw::end().dirty;
-                // the caller's string: reports empty, and neither its object bytes nor its heap buffer still hold the characters
-                if (!s.empty()) strings_ok = false;
                 const unsigned char* obj = reinterpret_cast<const unsigned char*>(&s);
-                for (size_t i = 0; i + 2 <= d.size() && strings_ok; ++i) if (d[i] != d[i + 1] && memmem(obj, sizeof s, &d[i], 2) && d.size() <= 15) strings_ok = false;
-                const unsigned char* hp = reinterpret_cast<const unsigned char*>(s.data());
-                if (hp < obj || hp >= obj + sizeof s) for (size_t i = 0; i < s.capacity(); ++i) if (hp[i] != 0) strings_ok = false;
+                const unsigned char* before = reinterpret_cast<const unsigned char*>(s.data());   // where the characters live (inside the object for short strings)
+                bool sso = before >= obj && before < obj + sizeof s;
+                hw::begin(0); if (c == 'S') *v[x] = SB(std::move(s)); else v[x]->assign(std::move(s)); dirty += hw::end().dirty;
+                // the caller's string: reports empty, and the place its characters lived holds zeros (a heap block it no longer
+                // owns was seen by the allocator interposer when it was released)
+                if (!s.empty()) strings_ok = false;
+                const unsigned char* after = reinterpret_cast<const unsigned char*>(s.data());
+                if (sso || after == before) for (size_t i = 0; i < d.size(); ++i) if (before[i] != 0) strings_ok = false;
             }
             else if (c == 'C') { hw::begin(0); *v[x] = *v[y]; dirty += hw::end().dirty; }
             else if (c == 'M') { hw::begin(0); *v[x] = std::move(*v[y]); dirty += hw::end().dirty; }
